@@ -552,9 +552,10 @@ class HyReader(Reader):
         if self.peek_and_getc("="):
             has_debug = True
             space_after = self.slurp_space()
+            # Normalize newlines as in any other literal text.
             dbg_prefix = (
                 space_before + form_text + space_between + "=" + space_after
-            )
+            ).replace("\x0d\x0a", "\x0a").replace("\x0d", "\x0a")
             values.append(self.fill_pos(String(dbg_prefix), start))
 
         # handle conversion code
